@@ -1,4 +1,5 @@
 import PewProofs.CliLoad
+import PewProofs.CliExt
 
 /-! # C20 — property theorems (statements only depend on `PewModel.Cli`) -/
 namespace Pew.Cli
@@ -391,7 +392,8 @@ theorem filter_eq_spec (f : String → Grid Tok → Grid Tok) (sel : Option (Lis
     (hnd : l.elements.Nodup) (hsel : ∀ s, sel = some s → s.Nodup) :
     LaserEq (filterStep f sel l) (filterSpec f sel l) := by
   obtain ⟨h1, h2, h3, h4, h5⟩ := filter_only_selected f sel l hnd hsel
-  exact ⟨h1, h2, h3, h4, fun i j _ _ => funext fun n => (h5 i j n).trans (filterSpec_get f sel l i j n).symm⟩
+  exact ⟨h1, h2, filterStep_calib f sel l, h3, h4,
+    fun i j _ _ => funext fun n => (h5 i j n).trans (filterSpec_get f sel l i j n).symm⟩
 
 /-- `stack_eq_spec` lifted to images: stacking fails exactly when the specification has no result
 (no inputs, or inputs with different element lists); otherwise the result has the elements and the
@@ -408,7 +410,7 @@ theorem stack_lasers_eq_spec (o : Orient) (pad : Tok) (ls : List Laser) :
     obtain ⟨hh, hw, hpix⟩ := stack_eq_spec o (fun _ => pad) _ g hg
     by_cases hall : ((l0 :: t).all fun l => l.elements == l0.elements) = true
     · simp only [stackLasers, stackLasersSpec, hall, if_true, hg, Option.map_some]
-      exact ⟨rfl, rfl, hh, hw, hpix⟩
+      exact ⟨rfl, rfl, rfl, hh, hw, hpix⟩
     · simp only [stackLasers, stackLasersSpec, hall]
       trivial
 
@@ -836,8 +838,9 @@ theorem convert_output (a : Args) (cfg : Option Cfg) (els : Option (List String)
       | some req =>
         a.inputs[k].laser.elements.filter (fun e => req.contains e) ≠ [] →
         Written (run a).files a.format
-          { elements := a.inputs[k].laser.elements.filter (fun e => req.contains e),
-            data := a.inputs[k].laser.data, config := cfg.getD a.inputs[k].laser.config } outs[k] := by
+          { a.inputs[k].laser with
+            elements := a.inputs[k].laser.elements.filter (fun e => req.contains e),
+            config := cfg.getD a.inputs[k].laser.config } outs[k] := by
   obtain ⟨hko, hsuf, hst, hfiles⟩ := run_item a (by intro f sel h; rw [hc] at h; cases h)
     (by intro f s h; rw [hc] at h; cases h) outs hp (by rw [hc]; rfl) k hk
   refine ⟨hko, hst, ?_⟩
@@ -895,7 +898,7 @@ theorem stack_output (a : Args) (o : Orient) (pad : Tok) (hc : a.cmd = .stack o 
     (l0 : Laser) (rest : List Laser) (hin : a.inputs.map (·.laser) = l0 :: rest)
     (hall : ∀ l ∈ rest, l.elements = l0.elements) :
     ∃ out, a.output = some out ∧ a.isDir out = false ∧ outs = [out] ∧ (run a).status = .ok ∧
-      ∃ m : Laser, m.elements = l0.elements ∧ m.config = l0.config ∧
+      ∃ m : Laser, m.elements = l0.elements ∧ m.config = l0.config ∧ m.calib = l0.calib ∧
         stack o (fun _ => pad) ((l0 :: rest).map (·.data)) = some m.data ∧
         Written (run a).files a.format m out := by
   obtain ⟨hne, hf, hd⟩ := parse_ok_facts a outs hp
@@ -905,13 +908,16 @@ theorem stack_output (a : Args) (o : Orient) (pad : Tok) (hc : a.cmd = .stack o 
   have hallb : ((l0 :: rest).all fun l => l.elements == l0.elements) = true := by
     simp only [List.all_cons, beq_self_eq_true, Bool.true_and, List.all_eq_true, beq_iff_eq]
     exact hall
-  have hst : stackLasers o pad (l0 :: rest) = some { elements := l0.elements, data := g, config := l0.config } := by
+  have hst : stackLasers o pad (l0 :: rest) =
+      some { elements := l0.elements, data := g, config := l0.config, calib := l0.calib } := by
     simp only [stackLasers, hallb, if_true, hg, Option.map_some]
-  have hsv := save_spec { elements := l0.elements, data := g, config := l0.config } out (by rw [hsfx]; exact hf)
-  have hrun : run a = ⟨.ok, specFiles a.format { elements := l0.elements, data := g, config := l0.config } out⟩ := by
+  have hsv := save_spec { elements := l0.elements, data := g, config := l0.config, calib := l0.calib } out
+    (by rw [hsfx]; exact hf)
+  have hrun : run a = ⟨.ok, specFiles a.format
+      { elements := l0.elements, data := g, config := l0.config, calib := l0.calib } out⟩ := by
     simp only [run, hp, hc, hin, hst, houts, hsv, hsfx]
-  refine ⟨out, hout, hdir, houts, by rw [hrun], { elements := l0.elements, data := g, config := l0.config },
-    rfl, rfl, hg, ?_⟩
+  refine ⟨out, hout, hdir, houts, by rw [hrun],
+    { elements := l0.elements, data := g, config := l0.config, calib := l0.calib }, rfl, rfl, rfl, hg, ?_⟩
   rw [hrun]
   exact written_of_specFiles _ _ _ _ (fun f hf' => ⟨f, hf', FileEq.refl f⟩)
 
@@ -1067,7 +1073,7 @@ example : ∃ f ∈ (run exFilter).files, f.path = ⟨"R/in", "b", ".npz"⟩ ∧
 example (o : Orient) : ∃ m : Laser, m.config = .raster 1 2 3 ∧
     stack o (fun _ => -1) [exS1.data, exS2.data, exS3.data] = some m.data ∧
     ∃ f ∈ (run (exStack o)).files, f.path = ⟨"R", "out", ".NPZ"⟩ ∧ ∃ m', f.content = .npz m' ∧ LaserEq m' m := by
-  obtain ⟨out, ho, _, _, _, m, _, hcfg, hst, hw⟩ := stack_output (exStack o) o (-1) rfl _
+  obtain ⟨out, ho, _, _, _, m, _, hcfg, _, hst, hw⟩ := stack_output (exStack o) o (-1) rfl _
     (by cases o <;> rfl : parse (exStack o) = .ok [⟨"R", "out", ".NPZ"⟩]) exS1 [exS2, exS3] rfl (by decide)
   cases ho
   exact ⟨m, hcfg, hst, hw.1 rfl⟩
@@ -1094,5 +1100,425 @@ example (b : Bool) : RunEq (mainRun (exMain b)) (specMain (exMain b)) :=
   main_refines_spec (exMain b) (by intro f sel h; cases b <;> cases h) (by intro f s h; cases b <;> cases h)
 
 end Ex
+
+/-! ## storage types: stacking inputs whose fields are stored in different types -/
+
+/-- **Stacking with storage types.**  `np.pad` holds the pad value in each input's own field types,
+`np.concatenate` converts every padded input to the promoted types.  When every input's types and
+the promoted types hold the pad value (`hpad`, `hout`) and the conversion to the promoted types
+changes no value of any input (`hval`: promotion loses nothing — float32 or int32 beside float64,
+whichever comes first), the stacked image is the specification's: every input unchanged at its
+stacked position, the pad value everywhere else. -/
+theorem stackT_eq_spec (C : Casting) (o : Orient) (pad : Tok) (ds : List (Grid Px × (String → DType)))
+    (g : Grid Px)
+    (hpad : ∀ d ∈ ds, ∀ n, C.cast (d.2 n) pad = pad)
+    (hout : ∀ n, C.cast (C.promote (ds.map (·.2 n))) pad = pad)
+    (hval : ∀ d ∈ ds, ∀ i j, i < d.1.h → j < d.1.w → ∀ n,
+      C.cast (C.promote (ds.map (·.2 n))) (d.1.get i j n) = d.1.get i j n)
+    (hs : stackT C o pad ds = some g) :
+    GridEq g (stackSpec o (fun _ => pad) (ds.map (·.1))) := by
+  rw [stackT_eq_map C o pad ds hpad] at hs
+  cases hst : stack o (fun _ => pad) (ds.map (·.1)) with
+  | none => simp [hst] at hs
+  | some g0 =>
+    simp only [hst, Option.map_some, Option.some.injEq] at hs
+    subst hs
+    obtain ⟨hh, hw, hpix⟩ := stack_eq_spec o (fun _ => pad) (ds.map (·.1)) g0 hst
+    refine ⟨hh, hw, ?_⟩
+    intro r c hr hc
+    have hr' : r < g0.h := hr
+    have hc' : c < g0.w := hc
+    simp only [Grid.map]
+    rw [hpix r c hr' hc']
+    rcases stackSpec_pixel o (fun _ => pad) (ds.map (·.1)) r c with h | ⟨d, hd, i, j, hi, hj, h⟩
+    · rw [h]
+      funext n
+      exact hout n
+    · rw [h]
+      obtain ⟨d', hd', rfl⟩ := List.mem_map.mp hd
+      funext n
+      exact hval d' hd' i j hi hj n
+
+/-- the typed stack of a non-empty list succeeds (same shapes as the plain stack) -/
+theorem stackT_some (C : Casting) (o : Orient) (pad : Tok) (ds : List (Grid Px × (String → DType)))
+    (hne : ds ≠ []) (hpad : ∀ d ∈ ds, ∀ n, C.cast (d.2 n) pad = pad) :
+    ∃ g, stackT C o pad ds = some g := by
+  obtain ⟨g0, hg0, -, -⟩ := stack_shape o (fun _ : String => pad) (ds.map (·.1)) (by simpa using hne)
+  exact ⟨_, by rw [stackT_eq_map C o pad ds hpad, hg0]; rfl⟩
+
+namespace Ex
+/-- two storage types: "i" holds multiples of ten only (a stand-in for an integer or float32 field), "f" everything;
+joined fields are "f" as soon as one of them is -/
+def exCast : Casting :=
+  { cast := fun t v => if t = "i" then v / 10 * 10 else v,
+    promote := fun ts => if ts.contains "f" then "f" else "i" }
+def exNarrow : Grid Px × (String → DType) := (⟨1, 2, fun _ j _ => 20 + 10 * j⟩, fun _ => "i")
+def exWide : Grid Px × (String → DType) := (⟨1, 1, fun _ _ _ => 25⟩, fun _ => "f")
+
+/-- non-vacuity of `stackT_eq_spec`: a narrow input first, a wide one after it, pad value 0: all hypotheses
+hold and the wide input's 25 is in the result -/
+example :
+    (∀ d ∈ [exNarrow, exWide], ∀ n, exCast.cast (d.2 n) 0 = 0) ∧
+    (∀ n, exCast.cast (exCast.promote ([exNarrow, exWide].map (·.2 n))) 0 = 0) ∧
+    (∀ d ∈ [exNarrow, exWide], ∀ i j, i < d.1.h → j < d.1.w → ∀ n,
+      exCast.cast (exCast.promote ([exNarrow, exWide].map (·.2 n))) (d.1.get i j n) = d.1.get i j n) ∧
+    ((stackT exCast .vertical 0 [exNarrow, exWide]).map fun g =>
+      (g.h, g.w, g.get 0 0 "A", g.get 0 1 "A", g.get 1 0 "A", g.get 1 1 "A")) = some (2, 2, 20, 30, 25, 0) := by
+  refine ⟨?_, ?_, ?_, by decide⟩
+  · intro d hd n
+    simp only [List.mem_cons, List.not_mem_nil, or_false] at hd
+    rcases hd with rfl | rfl <;> simp [exCast, exNarrow, exWide]
+  · intro n; simp [exCast, exNarrow, exWide]
+  · intro d hd i j hi hj n
+    simp only [List.mem_cons, List.not_mem_nil, or_false] at hd
+    rcases hd with rfl | rfl <;> simp [exCast, exNarrow, exWide]
+end Ex
+
+/-- **Regression witness for the seeded change C20-c2** (output preallocated in the FIRST input's
+types): with a narrow first input the later, wider input is not unchanged — the 25 of `exWide` comes
+out as 20 — while the code as it is (`stackT`: promoted types) keeps it. -/
+theorem stack_first_type_regression :
+    ((stackFirstT Ex.exCast .vertical 0 [Ex.exNarrow, Ex.exWide]).map fun g => g.get 1 0 "A") = some 20 ∧
+    ((stackT Ex.exCast .vertical 0 [Ex.exNarrow, Ex.exWide]).map fun g => g.get 1 0 "A") = some 25 ∧
+    (stackSpec .vertical (fun _ => 0) [Ex.exNarrow.1, Ex.exWide.1]).get 1 0 "A" = 25 := by
+  refine ⟨?_, ?_, ?_⟩ <;> decide
+
+/-- `stackT_eq_spec` lifted to images (compare `stack_lasers_eq_spec`): under the three conditions on
+the storage types — every input's own types hold the pad value, the promoted types hold it, and the
+promotion changes no value of any input — stacking the loaded images with their types gives the
+specification's image (elements, configuration and calibrations of the first input), and fails
+exactly when the specification has no result. -/
+theorem stack_lasers_typed_eq_spec (C : Casting) (o : Orient) (pad : Tok) (ls : List Laser)
+    (ty : Nat → String → DType)
+    (hpad : ∀ k, k < ls.length → ∀ n, C.cast (ty k n) pad = pad)
+    (hout : ∀ n, C.cast (promotedType C ty ls.length n) pad = pad)
+    (hval : ∀ k (hk : k < ls.length) i j, i < ls[k].data.h → j < ls[k].data.w → ∀ n,
+      C.cast (promotedType C ty ls.length n) (ls[k].data.get i j n) = ls[k].data.get i j n) :
+    match stackLasersT C o pad ((enum ls).map fun x => (x.2, ty x.1)), stackLasersSpec o pad ls with
+    | some l, some l' => LaserEq l l'
+    | none, none => True
+    | _, _ => False := by
+  change match stackLasersT C o pad (typedInputs ls ty), stackLasersSpec o pad ls with
+    | some l, some l' => LaserEq l l'
+    | none, none => True
+    | _, _ => False
+  cases ls with
+  | nil => simp [typedInputs, enum, stackLasersT, stackLasersSpec]
+  | cons l0 t =>
+    have hall : ((typedInputs (l0 :: t) ty).all fun l => l.1.elements == l0.elements) =
+        ((l0 :: t).all fun l => l.elements == l0.elements) := by
+      conv_rhs => rw [← typedInputs_fst (l0 :: t) ty]
+      rw [List.all_map]
+      rfl
+    -- the conditions, said of the list the mechanism works on
+    have hpad' : ∀ d : Grid Px × (String → DType), d ∈ (typedInputs (l0 :: t) ty).map (fun l => (l.1.data, l.2)) →
+        ∀ n, C.cast (d.2 n) pad = pad := by
+      intro d hd n
+      obtain ⟨k, hk, rfl⟩ := typedInputs_mem _ _ d hd
+      exact hpad k hk n
+    have hout' : ∀ n, C.cast (C.promote (((typedInputs (l0 :: t) ty).map fun l => (l.1.data, l.2)).map (·.2 n))) pad = pad := by
+      intro n
+      rw [typedInputs_types]
+      exact hout n
+    have hval' : ∀ d : Grid Px × (String → DType), d ∈ (typedInputs (l0 :: t) ty).map (fun l => (l.1.data, l.2)) →
+        ∀ i j, i < d.1.h → j < d.1.w → ∀ n,
+        C.cast (C.promote (((typedInputs (l0 :: t) ty).map fun l => (l.1.data, l.2)).map (·.2 n))) (d.1.get i j n)
+          = d.1.get i j n := by
+      intro d hd i j hi hj n
+      obtain ⟨k, hk, rfl⟩ := typedInputs_mem _ _ d hd
+      rw [typedInputs_types]
+      exact hval k hk i j hi hj n
+    obtain ⟨g, hg⟩ := stackT_some C o pad _ (by simp [typedInputs_cons]) hpad'
+    have hge := stackT_eq_spec C o pad _ g hpad' hout' hval' hg
+    rw [typedInputs_data] at hge
+    by_cases hb : ((l0 :: t).all fun l => l.elements == l0.elements) = true
+    · have hb' := hall.trans hb
+      rw [typedInputs_cons] at hb' hg ⊢
+      simp only [stackLasersT, stackLasersSpec, hb, hb', if_true, hg, Option.map_some]
+      exact ⟨rfl, rfl, rfl, hge⟩
+    · have hb' : ((typedInputs (l0 :: t) ty).all fun l => l.1.elements == l0.elements) ≠ true := by
+        rw [hall]; exact hb
+      rw [typedInputs_cons] at hb' ⊢
+      simp only [stackLasersT, stackLasersSpec, hb, hb']
+      trivial
+
+/-- **The whole run with storage types refines the specification.**  `runT` is `main` with the
+storage types of the loaded images: `filter` stores every result in its field (converted to the
+field's type), `stack` holds the pad value in each input's types and converts everything to the
+promoted types, `convert` moves no value.  It leaves what the specification `specRun` says — which
+knows no storage types: the library filter of the loaded element, every input unchanged at its
+stacked position, the pad value elsewhere — under exactly these conditions on the types
+(beside `hnd` / `hsel` of `run_refines_spec`):
+* `filter` (`hflt`): the element's type holds every value of the library filter's result (true of
+  float fields, where the filters compute in the field's own type; false of the mean filter of an
+  integer image);
+* `stack` (`hstk`): every input's types and the promoted types hold the pad value (false of NaN or 2.5
+  and an integer input), and the promotion changes no value of any input. -/
+theorem runT_refines_spec (C : Casting) (ty : Nat → String → DType) (a : Args)
+    (hnd : ∀ f sel, a.cmd = .filter f sel → ∀ i ∈ a.inputs, i.laser.elements.Nodup)
+    (hsel : ∀ f s, a.cmd = .filter f (some s) → s.Nodup)
+    (hflt : ∀ f sel, a.cmd = .filter f sel → ∀ k (hk : k < a.inputs.length),
+      ∀ n ∈ a.inputs[k].laser.elements, ∀ i j,
+        C.cast (ty k n) ((f k n (a.inputs[k].laser.field n)).get i j) = (f k n (a.inputs[k].laser.field n)).get i j)
+    (hstk : ∀ o pad, a.cmd = .stack o pad →
+      (∀ k, k < a.inputs.length → ∀ n, C.cast (ty k n) pad = pad) ∧
+      (∀ n, C.cast (promotedType C ty a.inputs.length n) pad = pad) ∧
+      (∀ k (hk : k < a.inputs.length) i j, i < a.inputs[k].laser.data.h → j < a.inputs[k].laser.data.w → ∀ n,
+        C.cast (promotedType C ty a.inputs.length n) (a.inputs[k].laser.data.get i j n)
+          = a.inputs[k].laser.data.get i j n)) :
+    RunEq (runT C ty a) (specRun a) := by
+  cases hc : a.cmd with
+  | convert cfg els =>
+    have : runT C ty a = run a := by simp only [runT, hc]
+    rw [this]
+    exact run_refines_spec a hnd hsel
+  | filter f sel =>
+    have : runT C ty a = run { a with cmd := .filter (storedFilter C ty f) sel } := by simp only [runT, hc]
+    rw [this]
+    refine RunEq.trans (run_refines_spec _ ?_ ?_) (specRun_filter_congr a f (storedFilter C ty f) sel hc ?_)
+    · intro f' sel' _ i hi
+      exact hnd f sel hc i hi
+    · intro f' s h
+      simp only [Cmd.filter.injEq] at h
+      exact hsel f s (by rw [hc, h.2])
+    · intro k hk
+      apply filterSpec_congr
+      intro n hn i j
+      simp only [storedFilter, Grid.map]
+      exact hflt f sel hc k hk n hn i j
+  | stack o pad =>
+    obtain ⟨hpad, hout, hval⟩ := hstk o pad hc
+    refine RunEq.trans ?_ (run_refines_spec a hnd hsel)
+    simp only [runT, run, hc]
+    cases hp : parse a with
+    | error e => exact RunEq.refl _
+    | ok outs =>
+      simp only
+      have hlen : (a.inputs.map (·.laser)).length = a.inputs.length := by simp
+      have h1 := stack_lasers_typed_eq_spec C o pad (a.inputs.map (·.laser)) ty
+        (by intro k hk n; exact hpad k (by simpa using hk) n)
+        (by intro n; rw [hlen]; exact hout n)
+        (by intro k hk i j hi hj n
+            have hk' : k < a.inputs.length := by simpa using hk
+            simp only [List.getElem_map] at hi hj ⊢
+            have e : promotedType C ty (a.inputs.map (·.laser)).length n = promotedType C ty a.inputs.length n :=
+              congrArg (fun m => promotedType C ty m n) hlen
+            rw [e]
+            exact hval k hk' i j hi hj n)
+      have h2 := stack_lasers_eq_spec o pad (a.inputs.map (·.laser))
+      cases hT : stackLasersT C o pad ((enum (a.inputs.map (·.laser))).map fun x => (x.2, ty x.1)) with
+      | none =>
+        cases hS : stackLasersSpec o pad (a.inputs.map (·.laser)) with
+        | some l' => simp [hT, hS] at h1
+        | none =>
+          cases hM : stackLasers o pad (a.inputs.map (·.laser)) with
+          | some l => simp [hM, hS] at h2
+          | none => exact RunEq.refl _
+      | some lT =>
+        cases hS : stackLasersSpec o pad (a.inputs.map (·.laser)) with
+        | none => simp [hT, hS] at h1
+        | some l' =>
+          cases hM : stackLasers o pad (a.inputs.map (·.laser)) with
+          | none => simp [hM, hS] at h2
+          | some l =>
+            simp only [hT, hS] at h1
+            simp only [hM, hS] at h2
+            have hle : LaserEq lT l := LaserEq.trans h1 (LaserEq.symm h2)
+            cases outs with
+            | nil => exact RunEq.refl _
+            | cons out rest =>
+              simp only
+              have hsv := save_congr hle out
+              cases h3 : save lT out with
+              | error e =>
+                cases h4 : save l out with
+                | error e' => exact RunEq.refl _
+                | ok fs' => simp [h3, h4] at hsv
+              | ok fs =>
+                cases h4 : save l out with
+                | error e' => simp [h3, h4] at hsv
+                | ok fs' =>
+                  simp only [h3, h4] at hsv
+                  exact ⟨rfl, hsv⟩
+
+/-- **`main` from the paths on, with storage types, refines the specification**: `main_refines_spec`
+for `mainRunT` — the images are the ones the table's loaders deliver, `ty k` the field types of the
+image loaded for argument `k`; the conditions on the types are those of `runT_refines_spec`, said of
+the loaded images. -/
+theorem mainT_refines_spec (C : Casting) (ty : Nat → String → DType) (c : CmdLine)
+    (hnd : ∀ f sel, c.cmd = .filter f sel → ∀ ls, c.sources.mapM (loadSpec c.defaults) = .ok ls →
+      ∀ x ∈ ls, x.2.elements.Nodup)
+    (hsel : ∀ f s, c.cmd = .filter f (some s) → s.Nodup)
+    (hty : ∀ ls, c.sources.mapM (loadSpec c.defaults) = .ok ls → TypesHold C ty (c.args ls)) :
+    RunEq (mainRunT C ty c) (specMain c) := by
+  have e : loadMech c.defaults = loadSpec c.defaults := funext (load_eq_spec c.defaults)
+  unfold mainRunT specMain mainWith
+  rw [e]
+  split
+  · exact RunEq.refl _
+  · cases hl : c.sources.mapM (loadSpec c.defaults) with
+    | error e => exact RunEq.refl _
+    | ok ls =>
+      simp only
+      split
+      · exact RunEq.refl _
+      · obtain ⟨h1, h2⟩ := hty ls hl
+        apply runT_refines_spec C ty (c.args ls) _ hsel h1 h2
+        intro f sel hcmd i hi
+        simp only [CmdLine.args, List.mem_map] at hi
+        obtain ⟨x, hx, rfl⟩ := hi
+        exact hnd f sel hcmd ls hl x.2 (List.of_mem_zip hx).2
+
+namespace Ex
+/-- non-vacuity of `runT_refines_spec` / `TypesHold`: `stack` of a narrow ("i": multiples of ten) 1x2 image
+over a wide 1x1 image holding 25, pad value 0 -/
+def exTyped : Args :=
+  { cmd := .stack .vertical 0,
+    inputs := [⟨⟨"R", "a", ".npz"⟩, true, { elements := ["A"], data := exNarrow.1, config := .raster 1 2 3 }⟩,
+               ⟨⟨"R", "b", ".npz"⟩, true, { elements := ["A"], data := exWide.1, config := .raster 1 2 3 }⟩],
+    format := ".npz", output := some ⟨"R", "st", ".npz"⟩, isDir := fun _ => false }
+def exTy : Nat → String → DType := fun k _ => if k = 0 then "i" else "f"
+
+example : TypesHold exCast exTy exTyped := by
+  refine ⟨(by intro f sel h; cases h), ?_⟩
+  intro o pad h
+  simp only [exTyped, Cmd.stack.injEq] at h
+  obtain ⟨-, rfl⟩ := h
+  refine ⟨?_, ?_, ?_⟩
+  · intro k hk n
+    have : k = 0 ∨ k = 1 := by simp [exTyped] at hk; omega
+    rcases this with rfl | rfl <;> simp [exCast, exTy]
+  · intro n; simp [exCast, exTy, exTyped, promotedType, List.range_succ]
+  · intro k hk i j hi hj n
+    have : k = 0 ∨ k = 1 := by simp [exTyped] at hk; omega
+    rcases this with rfl | rfl <;>
+      simp [exCast, exTy, exTyped, promotedType, List.range_succ, exNarrow, exWide]
+
+example : (runT exCast exTy exTyped).files.map (fun f => match f.content with
+      | .npz l => [l.data.get 0 0 "A", l.data.get 0 1 "A", l.data.get 1 0 "A", l.data.get 1 1 "A"]
+      | _ => []) = [[20, 30, 25, 0]] := by decide
+end Ex
+
+/-! ## objects: every command-line argument is processed on its own -/
+
+/-- **One object per argument.**  `main` changes the loaded images in place (`laser.config = …`,
+`laser.remove(…)`, `laser.data[element] = …`).  Because `args.lasers = [load(input) for input in
+args.input]` holds one fresh object per command-line argument — also when one path is named twice —
+the run on objects (`runRef` with `freshRefs`) is the run on values (`run`), of which
+`run_refines_spec` speaks: no argument sees what the run did to another. -/
+theorem runRef_fresh (a : Args) : runRef (freshRefs a.inputs.length) a = run a := by
+  unfold runRef run
+  cases parse a with
+  | error e => rfl
+  | ok outs =>
+    simp only
+    cases hc : a.cmd with
+    | stack o pad => rfl
+    | convert cfg els =>
+      simp only
+      have := fresh_work (a.inputs.map (·.laser)) outs (.convert cfg els) []
+      simpa using this
+    | filter f sel =>
+      simp only
+      have := fresh_work (a.inputs.map (·.laser)) outs (.filter f sel) []
+      simpa using this
+
+namespace Ex
+/-- `filter R/a.npz R/a.npz --output R/out/` (one path named twice), the filter adds 10 -/
+def exTwice : Args :=
+  { cmd := .filter (fun _ _ g => { g with get := fun i j => g.get i j + 10 }) none,
+    inputs := [⟨⟨"R", "a", ".npz"⟩, true, exS1⟩, ⟨⟨"R", "a", ".npz"⟩, true, exS1⟩],
+    format := ".npz", output := some exOut, isDir := fun p => p == exOut }
+end Ex
+
+/-- **Regression witness for the seeded change C20-c1** (a path is loaded the first time it is seen,
+repeated arguments share the object): `filter a.npz a.npz` then filters the one object twice — the
+file written last holds 10 + 20 where the specification (and the code as it is: a fresh object per
+argument) has 10 + 10. -/
+theorem shared_object_regression :
+    sharedRefs (Ex.exTwice.inputs.map (·.path)) = [0, 0] ∧
+    ((runRef [0, 0] Ex.exTwice).files.map fun f => match f.content with
+      | .npz l => l.data.get 0 0 "A"
+      | _ => 0) = [20, 30] ∧
+    ((runRef (freshRefs 2) Ex.exTwice).files.map fun f => match f.content with
+      | .npz l => l.data.get 0 0 "A"
+      | _ => 0) = [20, 20] ∧
+    ((specRun Ex.exTwice).files.map fun f => match f.content with
+      | .npz l => l.data.get 0 0 "A"
+      | _ => 0) = [20, 20] := by
+  refine ⟨?_, ?_, ?_, ?_⟩ <;> decide
+
+/-! ## what is on disk afterwards -/
+
+/-- **The same files leave the same disk.**  Files are written in order and a later file replaces an
+earlier one at the same path (two inputs with one derived output name; one path named twice).  Two
+results with the same files (`RunEq`, as `run_refines_spec` gives for the run and the specification)
+leave the same files on disk, path by path: `finalFiles` keeps, in order, exactly the files that no
+later file replaces. -/
+theorem final_files_eq (r r' : Result) (h : RunEq r r') :
+    FilesEq (finalFiles r.files) (finalFiles r'.files) :=
+  finalFiles_congr h.2
+
+/-- `finalFiles` names every path once, … -/
+theorem final_files_nodup (fs : List File) : ((finalFiles fs).map (·.path)).Nodup :=
+  finalFiles_nodup fs
+
+/-- … holds exactly the paths that were written, … -/
+theorem final_files_paths (fs : List File) (p : Path) :
+    p ∈ (finalFiles fs).map (·.path) ↔ p ∈ fs.map (·.path) :=
+  finalFiles_paths fs p
+
+/-- … and at each of them the content that was written LAST. -/
+theorem final_files_last (fs : List File) (f : File) (hf : f ∈ finalFiles fs) :
+    lastAt fs f.path = some f.content :=
+  finalFiles_last fs f hf
+
+example :
+    (finalFiles (runRef (freshRefs 2) Ex.exTwice).files).map (·.path) = [⟨"R/out", "a", ".npz"⟩] := by decide
+
+/-- **When do two derived outputs coincide?**  convert / filter with `--output` omitted: exactly
+when the two inputs have the same directory and stem (`a.txt` and `a.npz` in one directory; one path
+named twice); into an existing directory: exactly when they have the same stem (`s1/a.npz` and
+`s2/a.npz`).  In every other case each input has its own output. -/
+theorem outputs_coincide_iff (inputs : List Path) (format : String) (output : Option Path)
+    (isDir : Path → Bool) (outs : List Path) (hd : ∀ o, output = some o → isDir o = true)
+    (h : deriveOutputs false inputs format output isDir = .ok outs)
+    (j k : Nat) (hj : j < inputs.length) (hk : k < inputs.length) :
+    ∃ (hj' : j < outs.length) (hk' : k < outs.length),
+      (outs[j] = outs[k] ↔
+        match output with
+        | none => inputs[j].dir = inputs[k].dir ∧ inputs[j].stem = inputs[k].stem
+        | some _ => inputs[j].stem = inputs[k].stem) := by
+  rw [outputs_spec] at h
+  cases output with
+  | none =>
+    simp only [specOutputs, Bool.false_eq_true, if_false] at h
+    cases h
+    refine ⟨by simpa using hj, by simpa using hk, ?_⟩
+    simp only [List.getElem_map]
+    constructor
+    · intro e
+      have := congrArg Path.dir e
+      have := congrArg Path.stem e
+      simp_all
+    · rintro ⟨h1, h2⟩
+      cases hx : inputs[j]; cases hy : inputs[k]
+      simp_all
+  | some o =>
+    have hdo := hd o rfl
+    simp only [specOutputs, hdo, if_true, Bool.false_eq_true, if_false] at h
+    cases h
+    refine ⟨by simpa using hj, by simpa using hk, ?_⟩
+    simp only [List.getElem_map]
+    constructor
+    · intro e
+      have := congrArg Path.stem e
+      simpa using this
+    · intro h2
+      simp [h2]
+
+example :
+    deriveOutputs false [⟨"R/s1", "a", ".npz"⟩, ⟨"R/s2", "a", ".txt"⟩] ".npz" (some Ex.exOut) (fun p => p == Ex.exOut)
+      = .ok [⟨"R/out", "a", ".npz"⟩, ⟨"R/out", "a", ".npz"⟩] := by decide
 
 end Pew.Cli
